@@ -15,6 +15,7 @@ for X in A B; do Y=$X; [ -n "${ROUND2:-}" ] && { [ $X = A ] && Y=C || Y=D; }
   [ "${ROUND:-}" = 3 ] && { [ $X = A ] && Y=E || Y=F; }
   [ "${ROUND:-}" = 4 ] && { [ $X = A ] && Y=G || Y=H; }
   [ "${ROUND:-}" = 5 ] && { [ $X = A ] && Y=I || Y=J; }
+  [ "${ROUND:-}" = 6 ] && { [ $X = A ] && Y=K || Y=L; }
   D="$SRC/out/$X"; [ -f "$D/patch.diff" ] || continue
   OUT=/verif/seeded/$ID-$Y; LOG=$(mktemp); PATCH=$(mktemp)
   git checkout -q -- . ; rm -f tests/demo.rs
